@@ -22,7 +22,13 @@ RULE = ("exhaustive enumeration (see exhaustive_subspace) of constructor argumen
         "several rotations / extractions / array extractions with user edits of its attributes in between; (rsess) one "
         "Region2D / Region1D reused for many sub-region calls, also after reg.region is reassigned, and results used as "
         "receivers.  Array values include tiny / huge / non-finite / tied values (compared by value through an "
-        "injective labelling).  A case is non-trivial unless it is a bare constructor call; distinct = distinct JSON input.")
+        "injective labelling).  Phase 3 (gen_kinds): the same operations with every region / shape / pixels argument in other "
+        "REPRESENTATIONS (list, numpy scalars, ndarray, namedtuple, Region object, user subclass, region wrapping a region), "
+        "receivers / inputs that are user subclasses of Region, Layout and Array classes, positional passing, defaults left out, "
+        "mutable arguments fingerprinted around the call; arrays of dtype bool / int8 / uint8 / int64 beyond 2^53 / float16 / "
+        "float32 / complex128; Layout1D histories on one Array1D; rotate_pattern_ci_via_roe_corner_from; binned overscans, "
+        "serial_eper_pixels and every read-only attribute of the regions (before / after reg.region is re-assigned, after "
+        "copy / deepcopy / pickle).  A case is non-trivial unless it is a bare constructor call; distinct = distinct JSON input.")
 EXHAUSTIVE = {
     "quick": "constructors on [-1..3]^2 / [-1..2]^4; sub-regions of every region in a 3x3 frame with pixel ranges in [-1..3]; "
              "1-D extraction on all quadruples in [0..6]; 2-D extraction: all (region, window) pairs in a 3x3 frame; "
@@ -37,6 +43,7 @@ TRUSTED = ["py2v translator (coq/Gen/Gen_layout.v regenerated from autoarray/lay
            "its pinned-glue assumptions: AbstractRegion.__init__/__getitem__ literal text)",
            "correspondence harness harness/c19.py (also runs every generated definition against the Python function)",
            "numpy slicing semantics a[y0:y1, x0:x1] = firstn/skipn (Model.C19.slice2), checked by the KCommute cases"]
+TRUSTED += ["np.s_[a:b] modelled as the pair (a, b) in KProps1 / KProps2; np.mean for the binned overscans (python-side check)"]
 TRUSTED += ["numpy slice assignment a[y0:y1, x0:x1] = v = Model.C19.fill2 (proved equal to the pixel-wise fill_spec), exercised by the ahist cases",
             "the harness's own bookkeeping of the tracked layout / region state in lsess / rsess (plain tuples)"]
 ASSUMPTIONS = ["array contents are arbitrary (theorems are polymorphic in the element type); correspondence uses distinct integers",
